@@ -39,6 +39,7 @@ EXPLANATION += ' R02.18: a `col_offset`/`end_col_offset` of an AST node (UTF-8 b
 EXPLANATION += " R02.25 (=R13.8): a failed module lookup is remembered nowhere (cell or attribute): an import evaluated before its module existed resolves once the module is there."
 EXPLANATION += " R02.26 (=R15.16): the comprehension scope seeds its table from what its parent propagates to nested scopes, never from all names of the parent (class attributes are invisible in the element and the conditions)."
 EXPLANATION += " R02.27 (=R14.21): the string alternatives of the occurrence pattern take a letter for a string prefix only at a word start (the f of `if\"{x}\"` is none)."
+EXPLANATION += " R02.28 (=R01.25): where PyPackage filters the names of __init__.py, a name is left out only under the conjunction of being a submodule name and being the self-import."
 ASSUMPTIONS = ["re alternation is ordered (leftmost position, first alternative wins)",
                "the name searched for is a plain identifier (symbolic NAME in the folded pattern)"]
 
@@ -102,6 +103,7 @@ def check(ctx, res) -> None:
     module_search_order_rule(ctx, res, "R02.8")
     _header_keyword_rule(ctx, res)
     _package_precedence_rule(ctx, res)
+    init_names_filter_rule(ctx, res, "R02.28")
     _shared_global_rule(ctx, res)
     _same_pyname_strength_rule(ctx, res)
     from .common import call_target_rule
@@ -545,6 +547,57 @@ def _package_precedence_rule(ctx, res, rule: str = "R02.10") -> None:
             function=(g1 or base).qualname)
 
 
+def init_names_filter_rule(ctx, res, rule: str) -> None:
+    """(shared C02 / C01) The names `__init__.py` binds win over the submodules of the package -- except the one case that would never end:
+    `from . import sub` inside `__init__.py` names the submodule itself.  Where the package filters its __init__ names, a name is LEFT OUT
+    only when it is a submodule name AND the self-import (`name in <submodules> and self.<is that import>(...)`): the exclusion condition is
+    a conjunction that contains both.  Dropping every name that equals a submodule name (`A or B`: what `not A and not B` keeps out) gives
+    `pkg.render` the module where `__init__.py` says `from .render import render` -- the function's uses are missing from its occurrences
+    and a rename moves the file."""
+    from ..cfg import CFG
+    idx = ctx.idx
+    pk = idx.need_class("rope.base.pyobjectsdef.PyPackage")
+
+    def facts(t, pol, depth=0):
+        if depth > 6:
+            return
+        if isinstance(t, ast.UnaryOp) and isinstance(t.op, ast.Not):
+            yield from facts(t.operand, not pol, depth + 1)
+        elif isinstance(t, ast.BoolOp) and ((isinstance(t.op, ast.And) and pol) or (isinstance(t.op, ast.Or) and not pol)):
+            for v in t.values:
+                yield from facts(v, pol, depth + 1)
+        else:
+            yield t, pol
+
+    n = 0
+    for m in sorted(pk.methods.values(), key=lambda m: m.name):
+        iters = [x for x in ast.walk(m.node) if isinstance(x, (ast.For, ast.comprehension))
+                 and any(isinstance(c, ast.Call) and call_name(c) == "_get_concluded_attributes" for c in ast.walk(x.iter))]
+        for it in iters:
+            excl = None  # the facts that hold when a name is left out
+            if isinstance(it, ast.For):
+                cfg = CFG(m.node)
+                conts = [nd for nd in cfg.nodes if nd.kind == "stmt" and isinstance(nd.ast, ast.Continue) and any(y is nd.ast for y in ast.walk(it))]
+                if conts:
+                    excl = [f_ for t, pol in cfg.guards(conts[0].id) for f_ in facts(t, pol)]
+            elif it.ifs:
+                keep = it.ifs[0] if len(it.ifs) == 1 else ast.BoolOp(op=ast.And(), values=list(it.ifs))
+                excl = list(facts(keep, False))
+            if excl is None:
+                continue
+            n += 1
+            is_sub = any(pol and isinstance(t, ast.Compare) and len(t.ops) == 1 and isinstance(t.ops[0], ast.In) for t, pol in excl)
+            is_self_import = any(pol and isinstance(t, ast.Call) and is_self_attr(t.func) for t, pol in excl)
+            ok = is_sub and is_self_import
+            shown = " / ".join(ast.unparse(t)[:50] + ("" if pol else " is false") for t, pol in excl)
+            res.add(rule, f"PyPackage.{m.name}|an-init-name-is-left-out-only-as-the-self-import#{n}", ok, f"{m.unit.rel}:{it.iter.lineno}",
+                    "a name of __init__.py is left out only when it is a submodule name AND the import of that submodule from the package itself" if ok else
+                    f"PyPackage.{m.name} leaves a name of __init__.py out under `{shown}` -- not under \"submodule name AND self-import\" together: every name that equals a "
+                    "submodule name is dropped, `pkg.render` resolves to the module although __init__.py says `from .render import render`; the function's uses through the "
+                    "package are missing from its occurrences and a rename started there moves the file", function=m.qualname)
+    res.floor(rule, "filters over the names of __init__.py", n, 1)
+
+
 def _shared_global_rule(ctx, res, rule: str = "R02.13") -> None:
     """R02.13: `global n` in two functions names one variable even when the module never assigns n.  In the scope
     visitor's Global handler the binding made up for such a name is obtained from a registry owned by the module
@@ -606,6 +659,15 @@ def _same_pyname_strength_rule(ctx, res, rule: str = "R02.14") -> None:
                 "find-occurrences reports foreign tokens and the answer depends on the query point", function=f.qualname)
 
 
+def _finder_with_steps_in_place(idx, f):
+    """get_primary_and_pyname_at with its private steps read in place (the choice of the evaluation scope may be a step of its own:
+    `eval_str2(self._get_evaluation_scope(holding_scope, offset), name)`); the predicates (`_is_...`) stay calls.  A move to the parent
+    scope is `<name> = <scope>.parent` -- `holding_scope = holding_scope.parent`, or the result local of a step that returns `scope.parent`."""
+    from .common import inline_private_calls
+    keep = tuple(n for n in (f.cls.methods if f.cls is not None else {}) if n.startswith("_is_"))
+    return inline_private_calls(idx, f, keep=keep)
+
+
 def comprehension_iterable_scope_rule(ctx, res, rule: str) -> None:
     """R02.23 (= R01.18): the interpreter evaluates the FIRST iterable of a comprehension (`generators[0].iter`) before it enters
     the comprehension's scope -- `[x for x in x]` loops over the outer `x`; every later iterable and every condition is
@@ -615,12 +677,13 @@ def comprehension_iterable_scope_rule(ctx, res, rule: str) -> None:
     `[x for x in [x for x in x]]` stands in the first iterable of the outer one, whose loop variable is also `x`."""
     idx = ctx.idx
     f = idx.need_func("rope.base.evaluate.ScopeNameFinder.get_primary_and_pyname_at")
-    cfg = CFG(f.node)
+    cfg = CFG(_finder_with_steps_in_place(idx, f))
     moves = []
     for nd in cfg.nodes:
         st = nd.ast
         if nd.kind == "stmt" and isinstance(st, ast.Assign) and len(st.targets) == 1 and isinstance(st.targets[0], ast.Name) \
-                and isinstance(st.value, ast.Attribute) and st.value.attr == "parent" and isinstance(st.value.value, ast.Name) and st.value.value.id == st.targets[0].id:
+                and isinstance(st.value, ast.Attribute) and st.value.attr == "parent" and isinstance(st.value.value, ast.Name) \
+                and (st.value.value.id == st.targets[0].id or st.targets[0].id.startswith("_inl")):
             moves.append(nd)
     if not moves:
         res.add(rule, "get_primary_and_pyname_at|first-iterable-of-a-comprehension-evaluated-in-the-parent-scope", False, f.where,
@@ -690,12 +753,13 @@ def decorators_above_the_statement_rule(ctx, res, rule: str) -> None:
     as an operand."""
     idx = ctx.idx
     f = idx.need_func("rope.base.evaluate.ScopeNameFinder.get_primary_and_pyname_at")
-    cfg = CFG(f.node)
+    cfg = CFG(_finder_with_steps_in_place(idx, f))
     tests = []
     for nd in cfg.nodes:
         st = nd.ast
         if nd.kind == "stmt" and isinstance(st, ast.Assign) and len(st.targets) == 1 and isinstance(st.targets[0], ast.Name) \
-                and isinstance(st.value, ast.Attribute) and st.value.attr == "parent" and isinstance(st.value.value, ast.Name) and st.value.value.id == st.targets[0].id:
+                and isinstance(st.value, ast.Attribute) and st.value.attr == "parent" and isinstance(st.value.value, ast.Name) \
+                and (st.value.value.id == st.targets[0].id or st.targets[0].id.startswith("_inl")):
             tests += [t for t, pol in cfg.guards(nd.id) if pol]
     fam = []
     for t in tests:
@@ -741,13 +805,14 @@ def header_expression_scope_rule(ctx, res, rule: str) -> None:
     the class -- reads each of those fields of the statement's node."""
     idx = ctx.idx
     f = idx.need_func("rope.base.evaluate.ScopeNameFinder.get_primary_and_pyname_at")
-    cfg = CFG(f.node)
+    cfg = CFG(_finder_with_steps_in_place(idx, f))
     need = ["decorator_list", "defaults", "kw_defaults", "annotation", "returns", "bases", "keywords"]
     best = None
     for nd in cfg.nodes:
         st = nd.ast
         if nd.kind == "stmt" and isinstance(st, ast.Assign) and len(st.targets) == 1 and isinstance(st.targets[0], ast.Name) \
-                and isinstance(st.value, ast.Attribute) and st.value.attr == "parent" and isinstance(st.value.value, ast.Name) and st.value.value.id == st.targets[0].id:
+                and isinstance(st.value, ast.Attribute) and st.value.attr == "parent" and isinstance(st.value.value, ast.Name) \
+                and (st.value.value.id == st.targets[0].id or st.targets[0].id.startswith("_inl")):
             seen = set()
             for t, pol in cfg.guards(nd.id):
                 texts = [t]
